@@ -638,4 +638,13 @@ theorem put_then_get {α : Type} [BNum α] (s : St α) (key : String) (x : α) (
   ⟨store_get_put_same _ _ _ _, fun _ h => store_get_put_other _ _ _ _ _ h⟩
 
 
+/-- **The store outlives the program.** A program defined later in the same engine (a redefined USER_PUNCH, another
+host's program) starts with fresh lines, variables, loop stack and DATA pointer but finds the PUT/PUT$ store exactly as
+the earlier program left it -/
+theorem store_survives_redefinition {α : Type} [BNum α] (s : St α) :
+    (carryOver s).putN = s.putN ∧ (carryOver s).putS = s.putS ∧
+    (carryOver s).vars = [] ∧ (carryOver s).loops = [] ∧ (carryOver s).lines = [] ∧ (carryOver s).dataline = none ∧
+    ∀ key d, lookupD (carryOver s).putN key d = lookupD s.putN key d :=
+  ⟨rfl, rfl, rfl, rfl, rfl, rfl, fun _ _ => rfl⟩
+
 end PhreeqcVerif.C17
